@@ -300,6 +300,19 @@ def gen_round(rng, names):
     kT = ncol(fTail)
     b_brd = add("RTFBody", border_bottom=[rng.choice(["single", "", "dotted"]) for _ in range(kT)],
                 border_top=[rng.choice(["", "", "dashed"]) for _ in range(kT)])
+    # the same border colour in documents whose palettes put it at different dense indices (anything derived from
+    # the per-document colour index must not outlive the document)
+    cs = sorted(rng.sample(names, 3), key=names.index)   # names is sorted by name; order by master index below
+    from rtflite.dictionary.color_table import name_to_type as _n2t
+    cs = sorted(cs, key=lambda n: _n2t[n])
+    lo, mid, hi = cs
+    b_bc1 = add("RTFBody", border_color_left=hi, border_color_top=hi)
+    b_bc2 = add("RTFBody", border_color_left=hi, border_color_top=hi, text_color=lo)
+    b_bc3 = add("RTFBody", border_color_left=hi, text_color=[[lo, mid, hi]], border_color_bottom=mid)
+    # they share one (width-less, text-less) header object, so the history generator treats them as close relatives
+    doc("border-colour-alone", "single", [(fA, b_bc1)], dict(flat=[h_wl2]))
+    doc("border-colour-after-one", "single", [(fB, b_bc2)], dict(flat=[h_wl2]))
+    doc("border-colour-after-two", "single", [(fC, b_bc3)], dict(flat=[h_wl2]))
     doc("one-row-last-page-single-column", "single", [(fOne, rng.choice([b_wl, b_colA]))], page=p_one)
     doc("one-row-last-page-percol-borders", "single", [(fTail, b_brd)], page=p_one)
     doc("percol-borders-shared-body", "single", [(fA, b_brd)], **sprinkle())
